@@ -467,8 +467,15 @@ func makeOptionalPtrDecoder(typ reflect.Type) (decoder, error) {
 	if err != nil {
 		return nil, err
 	}
+	// The encoder writes exactly one empty form for a nil pointer of this
+	// type (see makePtrWriter). Accept only that form as nil, so that the
+	// value has a single accepted encoding.
+	nilKind, strict := nilKindOf(etype)
 	dec := func(s *Stream, val reflect.Value) (err error) {
 		kind, size, err := s.Kind()
+		if err == nil && size == 0 && kind != Byte && strict && kind != nilKind {
+			return &decodeError{msg: fmt.Sprintf("wrong kind of empty value (got %v, want %v)", kind, nilKind), typ: typ}
+		}
 		if err != nil || size == 0 && kind != Byte {
 			// rearm s.Kind. This is important because the input
 			// position must advance to the next value even though
@@ -488,6 +495,31 @@ func makeOptionalPtrDecoder(typ reflect.Type) (decoder, error) {
 		return err
 	}
 	return dec, nil
+}
+
+// nilKindOf returns the kind of the empty value that the encoder emits for a
+// nil pointer to typ: an empty string for byte arrays, integers, booleans,
+// strings and byte slices, an empty list for structs, arrays and other slices.
+// strict is false for types whose nil encoding is not fixed by the type alone.
+func nilKindOf(typ reflect.Type) (k Kind, strict bool) {
+	kind := typ.Kind()
+	switch {
+	case typ == rawValueType, typ.Implements(encoderInterface),
+		kind != reflect.Ptr && reflect.PtrTo(typ).Implements(encoderInterface),
+		kind == reflect.Interface, kind == reflect.Ptr:
+		return 0, false
+	case typ.AssignableTo(bigInt):
+		return String, true
+	case kind == reflect.Array && isByte(typ.Elem()):
+		return String, true
+	case kind == reflect.Struct || kind == reflect.Array:
+		return List, true
+	case kind == reflect.Slice && !isByte(typ.Elem()):
+		return List, true
+	case isUint(kind) || kind == reflect.Bool || kind == reflect.String || kind == reflect.Slice:
+		return String, true
+	}
+	return 0, false
 }
 
 var ifsliceType = reflect.TypeOf([]interface{}{})
